@@ -212,6 +212,7 @@ pub open spec fn belongs_two_hop(a: TwoHopSwap<'_>) -> bool {
     &&& a.token_vault_two_a.k == w2.token_vault_a && a.token_vault_two_b.k == w2.token_vault_b
     &&& a.token_owner_account_one_a.data.mint == w1.token_mint_a && a.token_owner_account_one_b.data.mint == w1.token_mint_b
     &&& a.token_owner_account_two_a.data.mint == w2.token_mint_a && a.token_owner_account_two_b.data.mint == w2.token_mint_b
+    &&& *a.oracle_one.k == crate::anchor_shim::pda_of(seq![crate::anchor_shim::Seed::Lit(0x6f7261636c65int), crate::anchor_shim::Seed::Key(a.whirlpool_one.k)]) && *a.oracle_two.k == crate::anchor_shim::pda_of(seq![crate::anchor_shim::Seed::Lit(0x6f7261636c65int), crate::anchor_shim::Seed::Key(a.whirlpool_two.k)])
 }
 /// C17 / C03 for the two-hop instruction (plain SPL tokens): success implies
 ///  - two distinct pools sharing the intermediate mint,
@@ -327,6 +328,7 @@ pub open spec fn belongs_swap_v2(a: SwapV2<'_>) -> bool {
     &&& a.token_owner_account_a.data.mint == w.token_mint_a && a.token_owner_account_b.data.mint == w.token_mint_b
     &&& *a.token_mint_a.info.key == w.token_mint_a && *a.token_mint_b.info.key == w.token_mint_b
     &&& a.token_program_a.k == a.token_mint_a.data.owner_program && a.token_program_b.k == a.token_mint_b.data.owner_program
+    &&& *a.oracle.k == crate::anchor_shim::pda_of(seq![crate::anchor_shim::Seed::Lit(0x6f7261636c65int), crate::anchor_shim::Seed::Key(a.whirlpool.k)])
 }
 /// C03 / C16 for swap_v2: as swap_v1_post, with the transfer-fee aware computation (swfe_post) in place of the bare loop; the minimum-output threshold
 /// is compared with what the trader actually receives (curve output minus the OUTPUT mint's fee), the maximum-input threshold with what the trader is
@@ -386,6 +388,7 @@ pub open spec fn belongs_two_hop_v2(a: TwoHopSwapV2<'_>, a_to_b_one: bool, a_to_
     &&& a.token_owner_account_input.data.mint == *a.token_mint_input.info.key && a.token_owner_account_output.data.mint == *a.token_mint_output.info.key
     &&& a.token_program_input.k == a.token_mint_input.data.owner_program && a.token_program_intermediate.k == a.token_mint_intermediate.data.owner_program
         && a.token_program_output.k == a.token_mint_output.data.owner_program
+    &&& *a.oracle_one.k == crate::anchor_shim::pda_of(seq![crate::anchor_shim::Seed::Lit(0x6f7261636c65int), crate::anchor_shim::Seed::Key(a.whirlpool_one.k)]) && *a.oracle_two.k == crate::anchor_shim::pda_of(seq![crate::anchor_shim::Seed::Lit(0x6f7261636c65int), crate::anchor_shim::Seed::Key(a.whirlpool_two.k)])
 }
 pub open spec fn event_for(wk: Pubkey, w0: Whirlpool, a_to_b: bool, u: PostSwapUpdate, min: Mint, mout: Mint) -> bool {
     exists|e: Traded| #[trigger] traded_emitted(e) && e.whirlpool == wk && e.a_to_b == a_to_b && e.pre_sqrt_price == w0.sqrt_price && e.post_sqrt_price == u.next_sqrt_price
